@@ -169,6 +169,10 @@ func c10Script(sc *L1Scenario, tier int) {
 		if r.Chance(20) {
 			sc.Advance(sec)
 		}
+		if r.Chance(8) {
+			sc.discardStep()
+			continue
+		}
 		if r.Chance(18) {
 			sc.CreateStd(uint64(1+r.Intn(7)), uint64(1+r.Intn(7)), sc.Periods[r.Intn(len(sc.Periods))])
 			continue
@@ -210,7 +214,7 @@ func genC10(seed uint64, tier, outdir string) *Report {
 	w.Create, w.Deposit, w.Propose, w.Claim, w.Send = 10, 50, 6, 8, 6
 	return runMoneyStream(MoneyStream{Prop: "C10", Weights: w, NRandom: [2]int{24, 250}, Len: [2]int{60, 120},
 		Scripts: []func(*L1Scenario, int){c10Script}, NScript: [2]int{24, 200}, Widen: widen5,
-		Monitors: []L1Monitor{c10Monitor},
-		Rule:     "a case is one L1 history on a fresh instance (scripted creation/deposit interleaving over ids 1-5 plus random tail, or fully random); distinct by hash of the op list; non-trivial = at least one deposit accepted and at least one rejected"},
+		Monitors: []L1Monitor{c10Monitor}, Prep: longDenomPrep, Spice: (*L1Scenario).discardStep, SpicePct: 5,
+		Rule: "a case is one L1 history on a fresh instance (scripted creation/deposit interleaving over ids 1-5 plus random tail, or fully random); distinct by hash of the op list; non-trivial = at least one deposit accepted and at least one rejected"},
 		seed, tier, outdir)
 }
